@@ -187,6 +187,21 @@ def check_one_class(ctx):
                     f"mixed emulsions are detected by `{elt}` instead of the droplet class: classes that share a data layout (PerturbedDroplet3D / PerturbedDroplet3DAxisSym) are written under the first member's class name and read back as that class")
         return
     arr = [x for x in fv.statements() if isinstance(x, ast.Assign) and "np.array([" in U(x.value)]
+    # the contiguous array is formed by numpy's own dtype discovery: members of one class with different layouts (mode counts)
+    # make np.array raise; a forced dtype / astype would silently cast (truncate or broadcast) their amplitudes
+    casts = []
+    for c in fv.calls():
+        nm = (fv.callee(c) or U(c.func)).split(".")[-1]
+        if nm in ("array", "asarray", "fromiter", "stack", "concatenate") and any(g for g in ast.walk(c) if isinstance(g, (ast.ListComp, ast.GeneratorExp)) and U(g.generators[0].iter) == "self") \
+                and (kwarg(c, "dtype") is not None or len(c.args) > 1):
+            casts.append(c)
+        if nm == "astype" and isinstance(c.func, ast.Attribute):
+            casts.append(c)
+    rets_ = [n.stmt for n in fv.return_nodes() if n.stmt.value is not None and not isinstance(n.stmt.value, ast.Call)]
+    if arr:
+        ctx.decide(not casts, "IOAGREE", site + ":no-cast", (fi, casts[0] if casts else arr[0]),
+                   "the data array of a non-empty emulsion is formed without a forced dtype: members whose layouts differ raise instead of being cast",
+                   f"`{U(casts[0])[:90] if casts else ''}` forces a dtype on the members' records: droplets of one class with a different number of amplitudes are silently cast (truncated/broadcast) and the file reads back different parameters instead of the write raising")
     ok = fv.dominates(st, gs) and (not arr or fv.dominates(gs, arr[0]))
     ctx.decide(ok, "IOAGREE", site + ":one-class", (fi, gs), "an emulsion of several droplet classes raises TypeError before any data array is formed (one class per dataset)",
                "the class check does not precede the formation of the data array")
@@ -225,9 +240,49 @@ def check_sequence_keys(ctx, writer_q, reader_q, member_writer, kind):
                 ctx.violate("IOAGREE", site, (w, where), f"{detail}: members are written under sequence numbers without zero padding but read back in sorted key order — 'x_10' sorts before 'x_2', so collections with more than 10 members come back in a different order")
                 return
     rd = [n for n in ast.walk(r.node) if isinstance(n, ast.Call) and dotted(n.func) == "sorted" and n.args and U(n.args[0]) in ("fp.keys()", "fp", "list(fp.keys())", "list(fp)")]
+    keyed = [n for n in rd if n.keywords or len(n.args) > 1]
+    if ok and keyed:
+        ctx.violate("IOAGREE", site, (r, keyed[0]), f"the reader orders the members with `{U(keyed[0])[:90]}` instead of by their zero-padded sequence keys: members come back in another order than they were "
+                    "written whenever that sort key is not increasing along the collection (e.g. non-monotonic times)")
+        return
     ctx.decide(ok and len(rd) == 1, "IOAGREE", site, (w, where),
                "members are written under zero-padded fixed-width sequence numbers and read back in sorted key order: order is preserved",
                f"{detail}; reader iterates sorted(fp.keys()): {len(rd) == 1}")
+
+
+def check_file_modes(ctx, rule="IOAGREE"):
+    """Every to_file truncates its target (mode 'w'); every from_file opens read-only.  A writer that appends to an existing
+    file leaves members of an earlier, longer collection behind, and the reader returns them."""
+    m = ctx.model
+    n = 0
+    for fi in m.all_functions():
+        short = fi.qualname.split(".")[-1]
+        if short not in ("to_file", "from_file") or not fi.qualname.startswith("droplets."):
+            continue
+        fv = view(m, fi)
+        opens = [c for c in fv.calls(nested=True) if (fv.callee(c) or U(c.func)).endswith("h5py.File") or U(c.func) in ("h5py.File", "File")]
+        for c in opens:
+            mode = arg_or_kw(c, 1, "mode")
+            want = "w" if short == "to_file" else "r"
+            mv = fv.expand(mode, c) if mode is not None else None
+            got = mv.value if isinstance(mv, ast.Constant) else None
+            n += 1
+            if short == "to_file":
+                ok = got in ("w", "w-", "x")
+                shown = repr(got) if got is not None else (U(mode) if mode is not None else "default ('r')")
+                bad = f"`{U(c)[:80]}` opens the target with mode {shown}: an existing file is not truncated, so datasets of a previously saved, longer collection survive and are read back as extra members"
+            else:
+                ok = got == "r" or mode is None
+                bad = f"`{U(c)[:80]}` opens the file with mode {got!r}; reading must not modify the file"
+            ctx.decide(ok, rule, f"{fi.qualname}:mode", (fi, c), f"file opened with mode '{want}'", bad)
+    # a member writer may not delete/replace existing keys (it writes into a fresh file)
+    for fi in m.all_functions():
+        if fi.qualname.split(".")[-1] != "_write_hdf_dataset" or not fi.qualname.startswith("droplets."):
+            continue
+        dels = [s_ for s_ in ast.walk(fi.node) if isinstance(s_, ast.Delete)]
+        ctx.decide(not dels, rule, f"{fi.qualname}:fresh", (fi, dels[0] if dels else fi.node), "member writers only create datasets",
+                   f"`{U(dels[0])[:60] if dels else ''}` deletes existing entries: the writer is prepared for files that are not truncated")
+    return n
 
 
 def check_time_column(ctx):
